@@ -127,6 +127,11 @@ class ExternalOptimizer(Optimizer):
                 with contextlib.suppress(subprocess.TimeoutExpired):
                     process.wait(_PROCESS_TIMEOUT)
 
+                # The process may have ended before the abort signal could be
+                # sent, the stored exception must still be raised:
+                if exception is not None:
+                    raise exception
+
     @property
     def allow_nan(self) -> bool:
         """Whether NaN is allowed.
